@@ -36,6 +36,13 @@ class OrderLeg(T.TravLeg):
             t, uni, st, d, u, fv, fr = q
             if x["again"] != a:
                 return [f"{t} is not deterministic: {a} then {x['again']} for {q}"]
+            if fv is None or isinstance(fv, int):
+                # "a function of the graph's link order alone": the neighbour lists the order is made of, read off the links
+                for i, got in x["nbs"].items():
+                    want = T.spec_neighbors(snap, int(i), d, u, fv)
+                    if got != want and not (got[0] == "raise" and want[0] == "raise"):
+                        return [f"neighbors() of vertex {i} under ({d}, {u}, filter {fv}) answers {got}; by the order of its links "
+                                f"{snap['vlinks'][int(i)]} (ends {[snap['lverts'][l] for l in snap['vlinks'][int(i)]]}) it is {want}"]
             if a[0] != "list" or fr is not None:
                 continue
             if uni is not None and (len(snap["uverts"][uni]) == 0 or st not in snap["uverts"][uni]):
